@@ -32,7 +32,11 @@ def kmer_spec(cx):
         a2, b = slice_bounds(n, start, stop)
         return z3.If(stop == 0, b_none, b)
 
-    cx.spec.update(present=present, py_slice_lo=py_slice_lo, py_slice_hi=py_slice_hi)
+    def present_in(seq, lo, length, masks, moff, init, found):
+        seq = as_str(seq)
+        return PRESENT(seq.arr, lo, length, masks.arr, masks.off + moff, init, found)
+
+    cx.spec.update(present=present, py_slice_lo=py_slice_lo, py_slice_hi=py_slice_hi, present_in=present_in)
     bit = z3.Function("bitop", I, I, I, I)
     cx.spec["__bitop__"] = lambda opname, l, r: bit({"BitAnd": 1, "BitOr": 2, "LShift": 3, "RShift": 4, "BitXor": 5}[opname], l, r)
 
@@ -78,8 +82,17 @@ def kmers_present(c):
                      "field(self.search_entries, 'mask_offset', t) + 256 <= len(self.search_masks))")
     c.ghost("__assert__(start == py_slice_lo(seq_length, entry.search_start) and start + search_length == py_slice_hi(seq_length, entry.search_start, entry.search_stop), "
             "'searched_window_is_the_python_slice')", before="search_ptr = seq + start")
-    c.loop(1, head="for i in range(self.number_of_searches)", inv=["0 <= i_next <= self.number_of_searches and seq_length == len(sequence)"])
-    c.ensures(no_out_of_bounds_read="True")
+    E = "self.search_entries"
+    LO = f"py_slice_lo(len(sequence), field({E}, 'search_start', t))"
+    HI = f"py_slice_hi(len(sequence), field({E}, 'search_start', t), field({E}, 'search_stop', t))"
+    # entry t finds one of its words in its window sequence[search_start:search_stop] (stop == 0 standing for the end)
+    WIN = (f"({HI} > {LO} and present_in(sequence, {LO}, {HI} - {LO}, self.search_masks, field({E}, 'mask_offset', t), "
+           f"field({E}, 'init_mask', t), field({E}, 'found_mask', t)))")
+    c.loop(1, head="for i in range(self.number_of_searches)",
+           inv=["0 <= i_next <= self.number_of_searches and seq_length == len(sequence)",
+                f"forall(t, 0, i_next, not {WIN})"])
+    c.ensures(no_out_of_bounds_read="True",
+              true_iff_some_entry_finds_a_word_in_its_python_slice_window=f"result == (not forall(t, 0, self.number_of_searches, not {WIN}))")
     c.runtime = {"module": "c07", "name": "kmers_present", "asan": True}
     c.mutant("stop = seq_length + stop", "stop = seq_length + stop + 1")
     c.mutant("if start < 0:\n                start = 0", "if start < 0:\n                start = 1")
